@@ -4,6 +4,7 @@ CONSTANTS
   Cancellers = {"k1", "k2"}
   Periodic = FALSE
   DeleteByName = FALSE
+  ClaimIgnoresCancel = FALSE
   DropOnClaim = FALSE
   MaxRuns = 1000
 INVARIANTS AtMostOnce NoOverlap NoPanic NoLostRun NotDropped CancelBranchNoRun NameReusable NameSlotUnique SuccessorReachable
